@@ -29,7 +29,8 @@ def run(tier):
     verdicts, st = sfsrun.run_traces([{k: v for k, v in c.items() if not k.startswith("_")} for c in cases])
     viol = [(c, ("violates", verdicts[c["id"]][1], verdicts[c["id"]][0])) for c in cases if c["id"] in verdicts]
     out = findings.settle("C04", viol, lambda c: {"block": c["_block"], "options": c["_opt"], "ids": c["_ids"], "sfs": c["_raw"],
-                                                  "key": c["_block"]})
+                                                  "key": c["_block"]},
+                          lambda c: [c["_block"] + " @" + c["_opt"]] + (["greedy-dependency-order"] if verdicts[c["id"]][1] in ("dependency", "after dependent") else []))
     nontrivial = sum(1 for c in cases if len(c["ids"]) >= 2)
     if cnt["with_store"] == 0 or nontrivial == 0:
         raise common.MachineryError("vacuity guard: no non-trivial greedy sequence with a store was validated")
